@@ -201,16 +201,28 @@ def r201(ctx, rep, f, ev, cg, reach):
     last = [o for o in ifs if "is_empty" in ckey(o["cond"])]
     rep.check(len(last) == 1 and not last[0]["guard"], "R20.1", "R20.1|result|is_empty",
               "validate_custom_stats returns Err exactly when an error was pushed", W)
-    # the result is consumed: every Err string is reported as an error
+    # the result is consumed: every Err string is recorded as an error (for_each closure or loop alike)
     vpath = "fastpasta::stats::stats_collector::StatsCollector::validate_custom_stats"
-    tb = ev.tb(vpath)
     okc = False
-    if tb is not None:
-        il = if_lets_on(tb, "stats_validation::validate_custom_stats")
-        okc = len(il) == 1 and any((n.get("res") or n.get("fn") or "").endswith(("StatsCollector::err_count_increment", "::push", "StatsCollector::add_err", "::for_each", "::extend"))
-                                   for _, n in tb.calls(il[0][1]["then"]))
+    det = ""
+    if vpath in f.fns:
+        ev.watch = lambda c: c.endswith("ErrorStats::add_custom_check_error") or c.endswith("stats_validation::validate_custom_stats") or c.startswith(vpath + "::{closure")
+        try:
+            recs = ev.collect_ifs(vpath, [Sym("self"), Sym("cfg")])
+            extra = []
+            for o in recs:
+                if o.get("closure"):
+                    extra += [dict(x, guard=tuple(o["guard"]) + tuple(x["guard"])) for x in ev.collect_ifs(o["call"], [Sym("env"), Sym("m")]) if "call" in x]
+            calls = [o for o in recs + extra if "call" in o and not o.get("closure")]
+            vc = [o for o in calls if o["call"].endswith("stats_validation::validate_custom_stats")]
+            ac = [o for o in calls if o["call"].endswith("add_custom_check_error")]
+            okc = len(vc) == 1 and not vc[0]["guard"] and len(ac) == 1 and any(g.startswith("symc(isErr(") for g in ac[0]["guard"]) \
+                and not any(g.startswith("not ") and "isErr(" in g for g in ac[0]["guard"])
+            det = "validate calls %d, record calls %s" % (len(vc), [[g[:50] for g in o["guard"]] for o in ac])
+        finally:
+            ev.watch = None
     rep.check(okc, "R20.1", "R20.1|result|consumed", "StatsCollector::validate_custom_stats records every returned message", "fastpasta/src/stats/stats_collector.rs",
-              "the Err(list) of validate_custom_stats is not consumed by one `if let Err` that records the messages")
+              "the Err(list) of validate_custom_stats is not recorded message by message: %s" % det)
     # caller gate
     cs = [(c, bb) for c, bb, *_ in cg.call_sites(lambda p_: p_ == vpath) if c in reach]
     rep.check(len(cs) == 1 and cs[0][0].endswith("Controller::<C>::run"), "R20.1", "R20.1|caller|run",
@@ -583,64 +595,66 @@ def r203(ctx, rep, f, ev, cg, reach):
     rep.check(ok, "R20.3", "R20.3|formula|matches_trigger_interval", "detected period = cur - prev (+%d iff cur < prev); Ok iff == P (%s)" % (ORBIT, msg), W,
               "matches_trigger_interval is not `(cur < prev ? cur - prev + %d : cur - prev) == P`: %s" % (ORBIT, msg))
 
-    # check_trigger_interval passes (tdh.bc, prev.bc, P)
+    # check_trigger_interval passes (tdh.bc, prev.bc, P) and maps Err to [E45]
     ct = TV + "check_trigger_interval"
-    tb = ev.tb(ct)
     ok = False
     msg = ""
-    if tb is not None:
-        env = {}
-        for p_, a in zip(tb.params, [Sym("T"), Sym("Q"), Sym("P")]):
-            ev.bind(p_.get("pat"), a, env)
-        il = if_lets_on(tb, "::matches_trigger_interval")
-        if len(il) == 1:
-            x, n, cn = il[0]
-            call = tb.e(cn["e"])[1]
-            try:
-                args = [vkey(ev.eval(tb, a, env, 0)) for a in call["args"]]
-            except Unsupported as e:
-                args = ["unevaluable %s" % e]
-            exp = ["sym(BitAnd(sym(T.trigger_bc_reserved1),0xfff))", "sym(BitAnd(sym(Q.trigger_bc_reserved1),0xfff))", "sym(P)"]
-            codes = codes_under(f, tb, n["then"])
-            ok = args == exp and _is_err_pat(cn["pat"]) and codes == {"E45"}
-            msg = "args=%s codes=%s" % (args, sorted(codes))
-        else:
-            msg = "if-let sites on matches_trigger_interval: %d" % len(il)
-    rep.check(ok, "R20.3", "R20.3|args|check_trigger_interval", "period computed from (current.trigger_bc, previous.trigger_bc, P), 12-bit fields; Err → [E45] (%s)" % msg, W,
+    if ct in f.fns:
+        ev.watch = lambda c: c == mt
+        ev.watch_codes = True
+        try:
+            recs = ev.collect_ifs(ct, [Sym("T"), Sym("Q"), Sym("P")])
+        finally:
+            ev.watch = None
+            ev.watch_codes = False
+        calls = [o for o in recs if "call" in o]
+        codes = [o for o in recs if "code" in o]
+        exp = ["sym(BitAnd(sym(T.trigger_bc_reserved1),0xfff))", "sym(BitAnd(sym(Q.trigger_bc_reserved1),0xfff))", "sym(P)"]
+        ok = len(calls) == 1 and calls[0]["args"] == exp and not calls[0]["guard"] and [o["code"] for o in codes] == ["E45"] \
+            and any("isErr(" in g and not g.startswith("not ") for g in codes[0]["guard"])
+        msg = "args=%s codes=%s" % ([o["args"] for o in calls], [(o["code"], [g[:40] for g in o["guard"]]) for o in codes])
+        # the function returns Err exactly on that branch
+        try:
+            rv = vkey(ev.call_fn(ct, [Sym("T"), Sym("Q"), Sym("P")]))
+            ok = ok and rv.count("Result::Ok(0=())") >= 1 and "Result::Err(0=" in rv
+        except Unsupported:
+            ok = False
+    rep.check(ok, "R20.3", "R20.3|args|check_trigger_interval", "period computed from (current.trigger_bc, previous.trigger_bc, P), 12-bit fields; Err → [E45] (%s)" % msg[:200], W,
               "check_trigger_interval does not call matches_trigger_interval(tdh.trigger_bc(), prev.trigger_bc(), period) and map Err to [E45]: %s" % msg)
     cs = sorted(set(c for c, *_ in cg.call_sites(lambda p_: p_ == mt) if c in reach))
     rep.check(cs == [ct], "R20.3", "R20.3|single-caller|matches_trigger_interval", "single caller check_trigger_interval", W, "callers: %s" % cs)
 
-    # the running validator: guards and operands
+    # the running validator: guards and operands (if-let nesting, let-else and early returns are equivalent here)
     W2 = "fastpasta/src/analyze/validators/its/cdp_running.rs"
     ci = CDP + "check_tdh_trigger_interval"
-    tb = ev.tb(ci)
     ok = False
     msg = ""
-    if tb is not None:
-        ifs = ifs_of(ev, ci, [Sym("self"), Sym("sl")])
+    if ci in f.fns:
+        from ..thir import canon_guard
+        ev.watch = lambda c: c == ct or c.endswith("Sender::<T>::send")
+        try:
+            recs = ev.collect_ifs(ci, [Sym("self"), Sym("sl")])
+        finally:
+            ev.watch = None
         per = "sym(call:fastpasta::config::check::ChecksOpt::check_its_trigger_period(sym(self.config)))"
         g1 = "symc(isSome(%s))" % per
         g2 = "symc(isSome(sym(self.status_words.tdhs.previous_tdh_with_internal_set)))"
         g3 = "Eq(sym(Shr(sym(BitAnd(sym(unwrap(sym(self.status_words.tdhs.current_tdh)).trigger_type_internal_trigger_no_data_continuation_reserved2),0x1000)),0xc)),0x1)"
-        conds = [ckey(o["cond"]) for o in ifs]
-        il = if_lets_on(tb, "::check_trigger_interval")
-        if len(il) == 1:
-            x, n, cn = il[0]
-            ent = [o for o in ifs if o["node"] == x]
-            guard = tuple(ent[0]["guard"]) if ent else None
-            # operands of the call
-            args = _eval_args_at(ev, tb, x, cn, [Sym("self"), Sym("sl")], ci)
-            exp = ["sym(unwrap(sym(self.status_words.tdhs.current_tdh)))", "sym(payload(sym(self.status_words.tdhs.previous_tdh_with_internal_set),Some))",
-                   "sym(payload(%s,Some))" % per]
-            sends = [1 for _, c in tb.calls(n["then"]) if (c.get("fn") or "").endswith("Sender::<T>::send")]
-            errs = [1 for y, a in tb.walk(n["then"]) if a["k"] == "Adt" and a.get("adt", "").endswith("stats::StatType") and a.get("vname") == "Error"]
-            ok = guard is not None and set(guard) == {g1, g2, g3} and len(guard) == 3 and args == exp and _is_err_pat(cn["pat"]) and len(sends) == 1 and len(errs) == 1
-            msg = "guard=%s args=%s sends=%d" % ([g[:60] for g in (guard or ())], [a[:70] for a in (args or [])], len(sends))
+        calls = [o for o in recs if "call" in o and o["call"] == ct]
+        sends = [o for o in recs if "call" in o and o["call"].endswith("::send")]
+        exp = ["sym(unwrap(sym(self.status_words.tdhs.current_tdh)))", "sym(payload(sym(self.status_words.tdhs.previous_tdh_with_internal_set),Some))",
+               "sym(payload(%s,Some))" % per]
+        if len(calls) == 1:
+            guard = sorted(set(canon_guard(g) for g in calls[0]["guard"]))
+            ok = guard == sorted([g1, g2, g3]) and calls[0]["args"] == exp
+            sg = [set(canon_guard(g) for g in o["guard"]) for o in sends]
+            ok = ok and len(sends) == 1 and {g1, g2, g3} <= sg[0] and any(g.startswith("symc(isErr(") for g in sg[0]) \
+                and sends[0]["args"][1].startswith("StatType::Error(")
+            msg = "guard=%s args=%s sends=%d" % ([g[:60] for g in guard], [a[:70] for a in calls[0]["args"]], len(sends))
         else:
-            msg = "if-let sites on check_trigger_interval: %d" % len(il)
+            msg = "call sites of check_trigger_interval: %d" % len(calls)
     rep.check(ok, "R20.3", "R20.3|guards|check_tdh_trigger_interval",
-              "checked iff period configured ∧ a previous internal-trigger TDH exists ∧ current TDH has internal trigger; operands (current, previous-internal, P); Err → StatType::Error (%s)" % msg, W2,
+              "checked iff period configured ∧ a previous internal-trigger TDH exists ∧ current TDH has internal trigger; operands (current, previous-internal, P); Err → StatType::Error (%s)" % msg[:300], W2,
               "check_tdh_trigger_interval deviates from `period set ∧ previous internal TDH ∧ current internal → compare(current, previous internal, period) → report Err`: %s" % msg)
 
     # call sites: exactly the TDH and TDH_after_packet_done arms, under running checks, after the word was stored
